@@ -6,6 +6,7 @@ CONSTANTS
   WithPlans = FALSE
   BlockBudget = 1000
   MinDecls = 0
+  MaxNest = 5
   TypesOnly = FALSE
   CallsOnly = FALSE
   Rich = FALSE
